@@ -77,10 +77,20 @@ def monotone_axioms(exprs, names=("exp", "log", "tanh", "logistic", "sqrt")):
 
 
 class Ackermann:
-    def __init__(self):
+    """embed=True additionally embeds terms of uninterpreted sorts (PRNG keys) into the reals: only = / distinct / ite are
+    used on them, so satisfiability is preserved, and qfnra-nlsat can then also produce MODELS for such queries (it
+    answers `unknown` on satisfiable queries that still contain an uninterpreted sort)"""
+
+    def __init__(self, embed=False):
         self.memo = {}
         self.cache = {}   # (decl name, arg ids) -> (var, decl, new args, original app)
         self.order = []
+        self.embed = embed
+
+    def _sort(self, srt):
+        if self.embed and srt.kind() == z3.Z3_UNINTERPRETED_SORT:
+            return z3.RealSort()
+        return srt
 
     def walk(self, t):
         k = t.get_id()
@@ -94,13 +104,25 @@ class Ackermann:
                 key = (d.name(), tuple(c.get_id() for c in ch))
                 ent = self.cache.get(key)
                 if ent is None:
-                    v = z3.FreshConst(t.sort(), "ack_" + d.name().replace("#", "_"))
+                    v = z3.FreshConst(self._sort(t.sort()), "ack_" + d.name().replace("#", "_"))
                     ent = (v, d, ch, t)
                     self.cache[key] = ent
                     self.order.append(ent)
                 r = ent[0]
+            elif self.embed and any(c.sort().kind() == z3.Z3_UNINTERPRETED_SORT for c in t.children()):
+                kd = d.kind()
+                if kd == z3.Z3_OP_EQ:
+                    r = ch[0] == ch[1]
+                elif kd == z3.Z3_OP_DISTINCT:
+                    r = z3.Distinct(*ch)
+                elif kd == z3.Z3_OP_ITE:
+                    r = z3.If(ch[0], ch[1], ch[2])
+                else:
+                    raise ValueError(f"cannot embed {d.name()} over an uninterpreted sort")
             else:
                 r = d(*ch)
+        elif self.embed and z3.is_const(t) and t.sort().kind() == z3.Z3_UNINTERPRETED_SORT:
+            r = z3.FreshConst(z3.RealSort(), "emb_" + t.decl().name())
         else:
             r = t
         self.memo[k] = r
@@ -166,7 +188,7 @@ def decide(formulas, *, timeout_s=60, nonlinear=False, ackermann=None, second=Fa
     if ackermann is None:
         ackermann = nonlinear
     if ackermann:
-        ack = Ackermann()
+        ack = Ackermann(embed=nonlinear)
         fs2 = [ack.walk(f) for f in fs]
         fs2 += ack.congruence()
     else:
